@@ -166,6 +166,7 @@ func (e *ex) doSlow(t []string) core.Result {
 		return res
 	}
 	e.cfgLoops++ // its global bucket is never closed (known finding, accounted in leak)
+	e.collect(tsl)
 	rec := &recConn{}
 	c := tsl.GetTrafficShapedConn(rec)
 	closeAll = func() { c.Close() }
@@ -532,7 +533,7 @@ func (P) Gen(r *core.Rand, tier string, emit func([]string)) {
 	nInter, nFlight, nE2E := 50, 30, 24
 	if tier == "thorough" {
 		nMain, nCfg, nPar, nSlow = 1500, 600, 60, 4
-		nInter, nFlight, nE2E = 1200, 600, 400
+		nInter, nFlight, nE2E = 1000, 500, 400
 	}
 	// A. shaped write histories
 	for i := 0; i < nMain; i++ {
